@@ -674,6 +674,50 @@ func c17Shapes(c *Ctx) {
 				}
 			}
 		}
+		// a string longer than the requested length is cut to its first n characters, by either builtin: a returned
+		// slice of s starts at 0; delegating to `right` (or slicing up to the end) keeps the wrong end
+		truncBad, truncSeen := "", 0
+		leftFn, rightFn := c.BuiltinFn("left"), c.BuiltinFn("right")
+		var classifyTrunc func(v ssa.Value, depth int)
+		classifyTrunc = func(v ssa.Value, depth int) {
+			switch x := v.(type) {
+			case *ssa.Phi:
+				if depth < 3 {
+					for _, e := range x.Edges {
+						classifyTrunc(e, depth+1)
+					}
+				}
+			case *ssa.Slice:
+				if !isParam(x.X, 0) {
+					return
+				}
+				truncSeen++
+				if x.Low != nil {
+					if n, isK := constIntArg(x.Low); !isK || n != 0 {
+						truncBad = "a slice of s that does not start at 0"
+					}
+				}
+			case *ssa.Extract:
+				if call, isC := x.Tuple.(*ssa.Call); isC && x.Index == 0 && len(call.Call.Args) > 0 && isParam(call.Call.Args[0], 0) {
+					switch cal := calleeOf(call); {
+					case cal == nil:
+					case cal == leftFn:
+						truncSeen++
+					case cal == rightFn:
+						truncSeen++
+						truncBad = "`right`, which keeps the last n characters"
+					}
+				}
+			}
+		}
+		for _, ret := range fr.Returns {
+			if len(ret.Results) > 0 {
+				classifyTrunc(ret.Results[0], 0)
+			}
+		}
+		if truncSeen > 0 {
+			c.R.Check(rule, spec.name+"-truncation-keeps-prefix", c.P.Pos(f.Pos()), truncBad == "", "when s is longer than n, `"+spec.name+"` yields the first n characters of s; found "+truncBad)
+		}
 		side := map[bool]string{true: "before", false: "after"}[spec.padFirst]
 		c.R.Check(rule, spec.name+"-side", c.P.Pos(f.Pos()), ok && !bad, "`"+spec.name+"` must put the padding "+side+" the string")
 		// padding is the pad parameter repeated
